@@ -58,3 +58,12 @@ Example unclassified_store_leaks :
   let bad := {| st_file := []; st_fn := []; st_target := [120]; st_root := RSelf; st_phase := SRender |} in
   stores_leak true [bad] = true /\ stores_leak true g_stores = false.
 Proof. vm_compute. split; reflexivity. Qed.
+
+(* every module/class-level object is a constant table nobody writes or keeps, or has been reviewed; a module-level instance of a
+   class (e.g. a process-wide cache handed to the template engine) is neither *)
+Theorem modobjs_ok_lemma : forallb modobj_ok g_modobjs = true.
+Proof. vm_compute. reflexivity. Qed.
+
+(* the template engine is constructed with per-environment values only *)
+Theorem env_kwargs_ok_lemma : forallb envkw_ok g_env_kwargs = true /\ (0 < length g_env_kwargs)%nat.
+Proof. vm_compute. split; [reflexivity | repeat constructor]. Qed.
